@@ -585,7 +585,8 @@ func rpcIsEmpty(rpc *RPC) bool {
 const pbFieldNumberLT15Size = 1
 
 func sovRpc(x uint64) (n int) {
-	return (bits.Len64(x) + 6) / 7
+	// a varint takes at least one byte, also for zero (as in the generated pb code)
+	return (bits.Len64(x|1) + 6) / 7
 }
 
 func sizeOfEmbeddedMsg(
